@@ -175,6 +175,11 @@ let parse_cm_tok e =
     if e = "E" then Some ConnMgr.SE
     else if e = "Z" then Some ConnMgr.SZ
     else if e = "C" then Some ConnMgr.SC
+    else if e = "BF" then Some ConnMgr.SBF
+    else if n >= 3 && e.[0] = 'B' && (e.[1] = 'E' || e.[1] = 'G') then
+      (let v = strict_int (String.sub e 2 (n - 2)) in
+       if v < 0 || v > 250 then None
+       else if e.[1] = 'E' then Some (ConnMgr.SBE (zi v)) else Some (ConnMgr.SBG (zi v)))
     else if n >= 2 then
       let v = strict_int (String.sub e 1 (n - 1)) in
       if v < 0 then None else
@@ -199,7 +204,7 @@ let cm_digest (s : ConnMgr.cst) =
 let cm_model head toks =
   let t = head_int head "t" 0 and mf = head_int head "mf" 0 in
   if t < 1 || t > 64 then "BAD-INPUT" else begin
-    let x = ref (ConnMgr.sinit (zi t) (zi mf)) in
+    let x = ref (ConnMgr.sinit (zi t) (zi mf) (head_int head "nb" 0 <> 1)) in
     let out = ref [ "s:" ^ cm_digest (ConnMgr.core !x) ] in
     Stdlib.List.iter (fun e ->
         let tag = match parse_cm_tok e with
